@@ -34,6 +34,8 @@ def menu(nums):
         for new in (n + 1, n + 3, 2):
             evs.append(("rs", n, new))
     for n in nums:
+        evs.append(("logon2", n))  # a Logon inside the established session (numbered below / at / above expectation)
+    for n in nums:
         # SequenceReset whose NewSeqNo is unusable (zero, not a number, missing): never honoured
         for bad in ("0", "abc", "none"):
             evs.append(("rsbad", n, bad))
@@ -56,6 +58,8 @@ def frame_of(ev, S, T, uid):
         extra = [(43, "Y"), (122, "20240101-00:00:00.000")] if ev[2] == "Y" else []
         cid = f"boom{uid}" if ev[2] == "X" else f"id{uid}"
         return refs.frame("D", ("%06d" % n) if ev[2] == "P" else n, T, S, [(11, cid), (55, "X")], extra_header=extra)
+    if k == "logon2":
+        return refs.frame("A", n, T, S, [(98, 0), (108, 100000)])
     if k == "hb":
         return refs.frame("0", n, T, S)
     if k == "tr":
